@@ -47,7 +47,8 @@ WellScripted(r) == r.script # <<>> \/ r.path # <<>>
 \* gateways carry decoded values: the variety that matters is lengths, bodies and special bytes in values
 GatewayFamily ==
     { Req(<<47, 115>>, p, qq[1], qq[2], hs, b[1], b[2], b[3], b[4]) :
-        p \in {<<>>, <<47, 97, 32, 200>>}, qq \in {<<FALSE, <<>>>>, <<TRUE, <<120, 61, 49>>>>},
+        p \in {<<>>, <<47, 97, 32, 200>>},
+        qq \in (IF Level >= 2 THEN {<<FALSE, <<>>>>, <<TRUE, <<120, 61, 49>>>>} ELSE {<<TRUE, <<120, 61, 49>>>>}),
         hs \in (IF Level >= 2 THEN {<<>>, <<h1>>, <<h2, h3>>} ELSE {<<>>, <<h2, h3>>}), b \in Bodies }
 Base1 == Req(<<47, 115>>, <<47, 97>>, TRUE, <<120, 61, 49>>, <<h1>>, FALSE, <<>>, FALSE, <<>>)
 Base2 == Req(<<>>, <<47, 97, 32, 200>>, FALSE, <<>>, <<h2>>, TRUE, <<97, 61, 49, 38, 98, 61, 37, 50, 48>>, TRUE, S_FORM)
@@ -69,9 +70,20 @@ CutChoices(n) == IF n < 2 THEN {<<>>}
 Wires(r) ==
     CASE Proto = "http" -> { HttpEncode(r, f) : f \in BOOLEAN }
       [] Proto = "scgi" -> { ScgiEncode(r) }
-      [] Proto = "fcgi" -> { FcgiEncode(r, 258, four, pc, sc, pad) :
-                               four \in BOOLEAN, pad \in Pads,
-                               pc \in CutChoices(Len(NvEncode(CgiVars(r), FALSE))), sc \in CutChoices(Len(r.body)) }
+      [] Proto = "fcgi" ->
+           LET np == Len(NvEncode(CgiVars(r), FALSE))
+               nb == Len(r.body)
+               pcs == <<<<>>, <<1>>, <<np - 1>>, <<1, 2>>, <<2, np \div 2>>, <<np \div 2, np - 1>>, <<3>>, <<np \div 2>>, <<1, 2, 3>>>>
+               scs == <<<<>>, (IF nb > 1 THEN <<1>> ELSE <<>>), <<>>, (IF nb > 2 THEN <<1, 2>> ELSE <<>>), (IF nb > 1 THEN <<nb - 1>> ELSE <<>>),
+                        <<>>, (IF nb > 3 THEN <<2, 3>> ELSE <<>>), (IF nb > 1 THEN <<nb \div 2>> ELSE <<>>), <<>>>>
+           IN IF Level >= 2
+              THEN \* every padding 0..7 with every kind of PARAMS/STDIN record boundary (parity-balanced), both length forms
+                   UNION { { FcgiEncode(r, 258, k % 3 = 0, pcs[k], scs[k], pad) : k \in { j \in 1..9 : (pad + j) % 2 = 0 } } : pad \in Pads }
+              ELSE \* every kind of record boundary once, paddings and both length forms spread over them
+                   { FcgiEncode(r, 258, o[1], o[2], o[3], o[4]) :
+                       o \in { <<FALSE, <<>>, <<>>, 0>>, <<FALSE, <<1>>, (IF nb > 1 THEN <<1>> ELSE <<>>), 7>>,
+                               <<TRUE, <<1, 2>>, <<>>, 3>>, <<FALSE, <<np - 1>>, (IF nb > 2 THEN <<1, 2>> ELSE <<>>), 1>>,
+                               <<TRUE, <<2, np \div 2>>, (IF nb > 1 THEN <<nb - 1>> ELSE <<>>), 7>>, <<FALSE, <<np \div 2, np - 1>>, <<>>, 5>> } }
 
 \* ------------------------------------------------------------------ observation
 Derive(res) ==
